@@ -13,7 +13,7 @@ from coqbridge import fl
 
 PROP = "C01"
 THEOREM_FILE = "Props/C01.v"
-CHECKER = "Corr.C01"
+CHECKER = "Corr.C01All"
 SHARD = 24
 RULE = ("(a) one step of the real Tracker.update (EF/RK2/RK4) with a plug-in forcing whose velocity is a polynomial in x, y "
         "and the fractional time, on a plug-in grid with anisotropic metric and a clip box that some stage positions "
@@ -83,15 +83,28 @@ def gen_cases(ctx):
         out.append({"k": "roms", "adv": adv, "field": "linear-t"})
         out.append({"k": "roms", "adv": adv, "field": "linear-t-v"})  # only v changes between the frames, u is steady
         out.append({"k": "roms", "adv": adv, "field": "linear-t-multi"})  # several steps between two frames
-        out.append({"k": "roms", "adv": adv, "field": "linear-t-late"})  # unevenly spaced frames, start after the third
+        out.append({"k": "roms", "adv": adv, "field": "linear-t-late"})  # unevenly spaced frames, start after the third, release one step later
     if not ctx.quick:
         for adv in ("EF", "RK2", "RK4"):
             out.append({"k": "order", "adv": adv})
+    import c01_float
+
+    for fdesc in c01_float.gen_step_cases(rng, 60 if ctx.quick else 1500):
+        out.append({"k": "fstep", "f": fdesc})
     return out
 
 
 def eval_case(desc, ctx):
     k = desc["k"]
+    if k == "fstep":
+        # the floating-point model of the step (Model/TrackerFloat.v): the real Tracker.update with a recording stub
+        # forcing, stage positions and final position compared bit for bit (leading -9: Corr/C01All -> Corr/C01F), and
+        # an independent exact-rational oracle for the proved rounding bounds
+        import c01_float
+
+        r = c01_float.eval_step_case(desc["f"])
+        r["ints"] = None if r.get("ints") is None else [-9] + [int(x) for x in r["ints"]]
+        return r
     if k == "step":
         return eval_step(desc)
     if k == "analytical":
@@ -185,7 +198,7 @@ def eval_roms(desc, ctx):
     d = ctx.subdir("c01roms_" + desc["adv"] + desc["field"])
     imax, jmax, N = 14, 8, 2
     dx, dt = 1000.0, 600.0
-    v, expect_y, nsteps, start = None, 4.0, 1, 0
+    v, expect_y, nsteps, start, rel = None, 4.0, 1, 0, None
     xu = np.arange(imax - 1) + 0.5
     if desc["field"] == "linear-x":
         c = 0.2 * dx / dt
@@ -213,16 +226,17 @@ def eval_roms(desc, ctx):
         c = 0.5 * dx / dt
         times = [0, 600, 1800, 3600, 7200]
         u = np.stack([np.full((N, jmax, imax - 1), c * t / 7200.0) for t in times])
-        nsteps, start = 4, 2400
+        # ... and the particle is released one step after the start: during the first step the model is empty
+        nsteps, start, rel = 5, 1800, 2400
         off = {"EF": 0.0, "RK2": 0.5, "RK4": 0.5}[desc["adv"]]
-        expect = 7.0 + sum(c * (start + (k + off) * dt) / 7200.0 * dt / dx for k in range(nsteps))
+        expect = 7.0 + sum(c * (rel + (k + off) * dt) / 7200.0 * dt / dx for k in range(nsteps - 1))
     else:  # steady u (the same in both frames), v grows linearly in time
         c = 0.5 * dx / dt
         u = np.full((2, N, jmax, imax - 1), 0.25 * dx / dt); times = [0, 600]
         v = np.stack([np.zeros((N, jmax - 1, imax)), np.full((N, jmax - 1, imax), c)])
         expect, expect_y = 7.25, 4.0 + {"EF": 0.0, "RK2": 0.25, "RK4": 0.25}[desc["adv"]]
     rf.write_roms(d / "f.nc", imax=imax, jmax=jmax, N=N, times=times, u=u, v=v, dx=dx)
-    rf.write_release(d / "r.rls", [[start, 7.0, 4.0, 5.0]])
+    rf.write_release(d / "r.rls", [[start if rel is None else rel, 7.0, 4.0, 5.0]])
     conf = rf.base_config(start=start, stop=start + int(dt) * nsteps, dt=int(dt), forcing_file=d / "f.nc", release_file=d / "r.rls", out_file=d / "o.nc", advection=desc["adv"])
     # one step: read the state directly
     m = rl.run_conf(conf)
